@@ -10,7 +10,8 @@ THEOREMS = ["C05_on_off_sum", "C05_on_time_rule", "C05_on_time_positive_partial"
             "C05_group_live", "C05_tie_group_law", "C05_tie_group_on_time_partial", "C05_tie_group_counterexample",
             "C05_slur_group_on_time", "C05_reverse_rest_group_on_time", "C05_grace_group_on_time",
             "C05_keysig_table_correct", "C05_getNum_render", "C05_getNum_is_numSpan", "C05_read_duration_render",
-            "C05_command_span", "C05_command_span_canonical", "C05_parse_render_partial"]
+            "C05_command_span", "C05_command_span_canonical", "C05_parse_render_partial",
+            "C05_command_span_ext", "C05_command_span_ext_canonical", "C05_parse_render_ext_partial"]
 LEVEL = "proof"
 STREAM = "mml.events+track.api"
 CHUNK = 250
@@ -28,14 +29,21 @@ LEVEL_TEXT = ("Machine-checked theorems over Lean models of Track (track.cpp), L
               "extended note, reverse rest / grace borrow = duration - d and key-on = min(old key-on, new duration), on every live extended note. Reader layer: get_num is proved equal to a state-free function of the rest of the line on every "
               "buffer and reads every rendered decimal / $-hexadecimal signed numeral exactly; read_duration on every rendered duration form; every covered command "
               "(notes with accidental and duration, r ^ l o < > Q q C s &) consumes exactly its canonical spelling and performs exactly its builder call (command_span); "
-              "whole canonical lines of covered commands parse to the builder calls in order with the model's own fuel (parse_render_partial). The other commands rest on "
-              "the correspondence check and the spec oracle. on_time >= 1 is FALSE of the "
+              "whole canonical lines of covered commands parse to the builder calls in order with the model's own fuel (parse_render_partial). Extended set (round T, on C06's "
+              "span lemmas): for R, ~, D, [ L ] ( ) * @ v p K E M P G t T _n __n kn %n, \\ + duration and \\=delay,volume one iteration of parse_mml_track on the canonical spelling "
+              "followed by any tail meeting the command's look-ahead condition stamps the reference, performs exactly the command's builder call(s) (~: reverse_rest then add_note; "
+              "\\=: clear_echo_buffer unless the delay is negative, then set_echo) and leaves the cursor behind the spelling; when the builder refuses R or ~ the run ends with the InputError "
+              "'unable to backtrack' / 'previous note is not long enough' positioned behind the command and no note is added (command_span_ext); whole canonical lines over that set "
+              "without the echo commands parse, up to source references, to the builder calls in order (parse_render_ext_partial). The remaining commands (V, key signatures _{..} k{..}, "
+              "'..', /, {/}) rest on the correspondence check and the spec oracle. on_time >= 1 is FALSE of the "
               "current code (Q4 c:1, D6a) and shuffle underflow breaks conservation (q5 s-30 c, D6b): both are proved as counterexample theorems and "
               "recorded as known findings. The models are tied to the code by regenerated tables and by diffing model and real code on every generated case.")
 LEVEL_NOTE = ("Trusted: Lean kernel (propext, Classical.choice, Quot.sound), the hand-written models Model/Lexer, Model/TrackBuilder, Model/Mml (agreement with the "
               "C++ is established by differential testing, not proved), Spec/MmlMeaning (my reading of mml_ref.md), glibc strtol in the C locale. The whole-line "
-              "reader theorem is partial: it covers notes, rests, ties, default length, octave, quantise, early release, measure length, shuffle and slur; for R ~ \\ _ k V D % "
-              "and the event commands of mml_control / mml_envelope, text -> builder calls is carried by correspondence (all events, references, error messages and positions) "
+              "reader theorems are partial: with exact source references they cover notes, rests, ties, default length, octave, quantise, early release, measure length, shuffle and slur; "
+              "up to source references also R ~ D % and the one-number event commands of mml_control / mml_envelope (hypothesis CmdsOk: numbers in int range, & R ~ accepted by the builder); "
+              "the echo commands are proved per command only (no blanks between \\ and its duration in the interface form; echo_step has the general form); for V, _{..} / k{..}, '..', /, {/} "
+              "and for non-canonical spellings, text -> builder calls is carried by correspondence (all events, references, error messages and positions) "
               "and by the spec oracle on the implementation's events. Decided per case by the oracle only (not proved): the key-on time of extended notes that start with an echo "
               "note, and everything about an extended note after one of its ties was recorded as a REST (the builder forgets the note there: D24). The oracle (Spec/MmlMeaning Item) "
               "prescribes an interval, not a point, where mml_ref.md leaves a choice: Q/q changed inside an extended note, slur across loop commands, tie behind a slur, key-on time "
@@ -336,6 +344,8 @@ CORPUS_TEXT = [
     # unit-test shapes
     ["A cdefgab>c"], ["A o4l4cdefgab>c"], ["A c4d8e16f32g2.a4..b4...", "A r4^4&c^8"], ["ABC {c/d+/g} {d/f/a}"], ["A [cd/ef]4 L gab"],
     ["A c4 r4 ^4"], ["A c4 v5 ^4"], ["A Q4 c4 v5 ^4"], ["A Q4 c4 v5 ^4 ^4"], ["A Q6 c4 v10 ^4"], ["A Q4 c4 v5 ^2 ^4"], ["A q30 c:10 @1 ^ ^"], ["A Q4 c4 v5 ^4 & d4"], ["A c4 & d4"], ["A r4 & d4"], ["A c4 ] R8"], ["A c4 R4"], ["A c4 R8"], ["A r4 R4"],
+    # the end-to-end example behind C05_parse_render_ext_partial (round T)
+    ["A c R8 ~d16 \\=1,2 \\ [ e ]3 @5 D1"], ["A R"], ["A c8 R4"], ["A c8 ~d4"],
     ["A \\=2,3 c4d\\e\\"], ["A \\=1,0 c\\"], ["A \\=-1,2 c\\ r\\"], ["A \\=11,2 cdefgabcdefg\\"], ["A _{c} cdefgab"], ["A _{D} _{=f} cdefgab"], ["A _{+cfg} cfg"],
     ["A _{} c"], ["A _{h} c"], ["A _{+i} c"], ["A _{+c"], ["A _{ +c f }cf"], ["A _{-h} h b"], ["A _{F} h b"], ["A _{+C} c"],
     ["A cx10 c$10 c$10e"], ["A c 4 d\t8"], ["A c:$20"], ["A c$-4"], ["A c0"], ["A c-4"], ["A c=-4"], ["A c:-5"], ["A c$0x10 c$0x c$0xg"], ["A o$ c"],
